@@ -8,6 +8,7 @@ package main
 import (
 	"errors"
 	"fmt"
+	"sort"
 	"strings"
 
 	"github.com/verily-src/fhirpath-go/fhirpath"
@@ -287,6 +288,55 @@ func runC17(c *Ctx) {
 	c.Law(o.Err != nil && !o.Panicked, "C17/custom-arg-type", "arguments are checked against the parameter types", "Patient.typed(3, 's')", outTokens(o))
 	o = ev("Patient.typed(Patient.name.family, 3)", typed, "typed")
 	c.Law(o.Err != nil && !o.Panicked, "C17/custom-arg-singleton", "arguments must be single items", "Patient.typed(Patient.name.family, 3)", outTokens(o))
+	// every parameter type x every argument type, one and two parameters: the call succeeds exactly
+	// when each argument has its parameter's type, and then hands the values over unchanged
+	type argForm struct{ src, ty, tok string }
+	forms := []argForm{{"'s'", "String", "S:x73"}, {"65", "Integer", "I:65"}, {"true", "Boolean", "B:true"}, {"1.5", "Decimal", "D:15e-1"}, {"(1 + 1)", "Integer", "I:2"}, {"Patient.id", "element", ""}}
+	one := map[string]any{
+		"String":  func(in system.Collection, a system.String) (system.Collection, error) { return system.Collection{a}, nil },
+		"Integer": func(in system.Collection, a system.Integer) (system.Collection, error) { return system.Collection{a}, nil },
+		"Boolean": func(in system.Collection, a system.Boolean) (system.Collection, error) { return system.Collection{a}, nil },
+		"Decimal": func(in system.Collection, a system.Decimal) (system.Collection, error) { return system.Collection{a}, nil },
+	}
+	for _, pt := range []string{"String", "Integer", "Boolean", "Decimal"} {
+		for _, a := range forms {
+			src := "Patient.one" + pt + "(" + a.src + ")"
+			o := ev(src, one[pt], "one"+pt)
+			c.Observe("custom "+src, true)
+			if a.ty == pt {
+				c.Law(outTokens(o) == "ok:["+a.tok+"]", "C17/custom-args", "a custom function receives its evaluated single-item arguments", src+" (parameter "+pt+")", outTokens(o))
+			} else {
+				c.Law(o.Err != nil && !o.Panicked, "C17/custom-arg-type", "arguments are checked against the parameter types", src+" (parameter "+pt+", argument "+a.ty+")", outTokens(o))
+			}
+		}
+	}
+	two := map[string]any{
+		"String,Integer":  func(in system.Collection, a system.String, b system.Integer) (system.Collection, error) { return system.Collection{a, b}, nil },
+		"Integer,String":  func(in system.Collection, a system.Integer, b system.String) (system.Collection, error) { return system.Collection{a, b}, nil },
+		"String,String":   func(in system.Collection, a system.String, b system.String) (system.Collection, error) { return system.Collection{a, b}, nil },
+		"Boolean,Decimal": func(in system.Collection, a system.Boolean, b system.Decimal) (system.Collection, error) { return system.Collection{a, b}, nil },
+	}
+	var twoKeys []string
+	for k := range two {
+		twoKeys = append(twoKeys, k)
+	}
+	sort.Strings(twoKeys)
+	for ki, k := range twoKeys {
+		pts := strings.Split(k, ",")
+		for _, a := range forms {
+			for _, b := range forms {
+				name := fmt.Sprintf("two%d", ki)
+				src := "Patient." + name + "(" + a.src + ", " + b.src + ")"
+				o := ev(src, two[k], name)
+				c.Observe("custom "+src, true)
+				if a.ty == pts[0] && b.ty == pts[1] {
+					c.Law(outTokens(o) == "ok:["+a.tok+","+b.tok+"]", "C17/custom-args", "a custom function receives its evaluated single-item arguments", src+" (parameters "+k+")", outTokens(o))
+				} else {
+					c.Law(o.Err != nil && !o.Panicked, "C17/custom-arg-type", "arguments are checked against the parameter types", src+" (parameters "+k+", arguments "+a.ty+","+b.ty+")", outTokens(o))
+				}
+			}
+		}
+	}
 	o = ev("Patient.failing()", failing, "failing")
 	c.Law(o.Err != nil && strings.Contains(o.Err.Error(), "boom"), "C17/custom-error", "the error a custom function returns is passed through", "Patient.failing()", fmt.Sprint(o.Err))
 	o = ev("failing()", failing, "failing")
